@@ -49,6 +49,9 @@ type realApp struct {
 	// slowFromApp: every FromApp takes this long (a slow consumer: received messages queue up
 	// inside the engine); read under mu
 	slowFromApp time.Duration
+	// slowLogon: ToAdmin takes this long for every outgoing Logon (the application looks up
+	// credentials): the Logon is being prepared while other goroutines keep submitting; read under mu
+	slowLogon time.Duration
 }
 
 func (a *realApp) OnCreate(quickfix.SessionID) {}
@@ -63,6 +66,14 @@ func (a *realApp) OnLogout(quickfix.SessionID) {
 	a.mu.Unlock()
 }
 func (a *realApp) ToAdmin(m *quickfix.Message, _ quickfix.SessionID) {
+	a.mu.Lock()
+	slowLogon := a.slowLogon
+	a.mu.Unlock()
+	if slowLogon > 0 {
+		if mt, _ := m.Header.GetString(35); mt == "A" {
+			time.Sleep(slowLogon)
+		}
+	}
 	if a.slowHeartbeat > 0 {
 		if mt, _ := m.Header.GetString(35); mt == "0" {
 			time.Sleep(a.slowHeartbeat)
@@ -661,6 +672,26 @@ func socketRun(t *testing.T, run int, file bool) (violation, inconclusive, detai
 		}
 		time.Sleep(2500 * time.Millisecond) // reconnect, Logon, ResendRequest, burst, reset inside it, reconnect
 	}
+	if run%4 == 2 {
+		// the application takes its time over every Logon (ToAdmin) while another goroutine keeps
+		// submitting through the reconnect: what is accepted during the handshake is delivered too
+		for _, a := range []*realApp{appA, appB} {
+			a.mu.Lock()
+			a.slowLogon = 250 * time.Millisecond
+			a.mu.Unlock()
+		}
+		proxy.cut()
+		for i := 0; i < 40; i++ {
+			sendFrom(idA, "A", &nA, &accA)
+			sendFrom(idB, "B", &nB, &accB)
+			time.Sleep(50 * time.Millisecond)
+		}
+		for _, a := range []*realApp{appA, appB} {
+			a.mu.Lock()
+			a.slowLogon = 0
+			a.mu.Unlock()
+		}
+	}
 	restarted := ""
 	if file && run%4 == 1 || file && run%4 == 3 {
 		// an engine is stopped and created again on the same file store while the other side still
@@ -777,6 +808,9 @@ func TestC05_Sockets(t *testing.T) {
 		v, inc, detail := socketRun(t, run, run%2 == 1)
 		c.Eval()
 		c.Class("socket-run")
+		if run%4 == 2 {
+			c.Class("socket-run:submissions-during-a-slow-logon-handshake")
+		}
 		if strings.Contains(detail, `under load: "initiator"`) {
 			c.Class("socket-run:initiator-restarted-on-its-file-store-under-load")
 		}
